@@ -1280,7 +1280,12 @@ def c15(m, o):
         mm, err, why = impl.build(dict(prog, obs=[]))
         if err is not None:
             return None, "rejected at op %s: %s" % (err, why)
-        mm.run(p, solver=solver, jit=False)
+        try:
+            mm.run(p, solver=solver, jit=False)
+        except (KeyboardInterrupt, SystemExit):
+            raise
+        except BaseException as e:  # noqa
+            return None, "running raises %r" % (e,)
         out = np.asarray(mm.outputs, dtype=float)
         ids = [(key or TR.comp_key)(str(c)) for c in mm.compartments]
         return (mm, out, ids, {k: np.asarray(v, dtype=float) for k, v in mm.derived_outputs.items()}), None
@@ -1418,10 +1423,9 @@ def c11(m, o):
                         continue
                     r, dflt, gc = handles[c["k"]]
                     r.run(given)
-                    frozen = {} if gc.get("dyn") is None else {k: v for k, v in {**dflt, **fl(gc.get("params"))}.items()
-                                                                   if k not in gc["dyn"]}
-                    key = ("runner", gc["solver"], tuple(sorted({**dflt, **given, **frozen}.items())),
-                           None if gc.get("dyn") is None else tuple(sorted(gc["dyn"])))
+                    # (a runner's result is a function of the runner - what it froze when built - and of the values
+                    # given to this call: frozen parameters rule the model, given ones the derived-output functions)
+                    key = ("runner", c["k"], tuple(sorted({**dflt, **given}.items())))
                     res = bits(r)
                     # ModelResults.run also stores the results on the model
                     if bits(mm) != res:
